@@ -879,6 +879,30 @@ func Assemble(tbs []byte, sigAlgOID []int, nullParams bool, sig []byte, certs []
 	return Seq(Enum(0), Ctx(0, Seq(OID([]int{1, 3, 6, 1, 5, 5, 7, 48, 1, 1}), Octets(basic))))
 }
 
+// AssembleRaw is Assemble with a caller-supplied signatureAlgorithm TLV (any
+// bytes: relabelled OIDs, odd parameters); all enclosing lengths are
+// re-encoded.
+func AssembleRaw(tbs, algID, sig []byte, certs [][]byte) []byte {
+	parts := [][]byte{tbs, algID, BitString(sig)}
+	if len(certs) > 0 {
+		parts = append(parts, Ctx(0, Seq(certs...)))
+	}
+	basic := Seq(parts...)
+	return Seq(Enum(0), Ctx(0, Seq(OID([]int{1, 3, 6, 1, 5, 5, 7, 48, 1, 1}), Octets(basic))))
+}
+
+// CertsRaw returns the DER of the embedded certificates.
+func (r *Resp) CertsRaw() [][]byte {
+	var out [][]byte
+	for _, c := range r.Certs {
+		out = append(out, append([]byte{}, r.Raw[c.Whole.Off:c.Whole.End()]...))
+	}
+	return out
+}
+
+// SigAlgRaw returns the signatureAlgorithm TLV as it stands in the response.
+func (r *Resp) SigAlgRaw() []byte { return r.Raw[r.SigAlg.Off:r.SigAlg.End()] }
+
 // ---- OCSPRequest -------------------------------------------------------------
 
 type Req struct {
